@@ -914,3 +914,63 @@ E('w_nodefault_hit', 'warn nodefault', r'''
 a+
 b
 ''')
+
+# --- '|' action followed by every shape of trailing context -------------------------
+E('tc_bar_fv', 'trail bar vartrail', r'''
+%%
+abcd |
+ab/c+
+c
+.
+\n
+''')
+
+E('tc_bar_vf', 'trail bar vartrail', r'''
+%%
+xyz |
+a+/bc
+b
+c
+.|\n
+''')
+
+E('tc_bar_ff', 'trail bar vartrail', r'''
+%%
+pqr |
+ab/cd
+[a-d]
+.|\n
+''')
+
+E('tc_bar_eol', 'trail bar eol vartrail', r'''
+%%
+foo |
+bar$
+ba
+\n
+.
+''')
+
+E('tc_bar_chain', 'trail bar vartrail', r'''
+%%
+k |
+lm |
+n/o+
+o
+.|\n
+''')
+
+E('nul_end', 'nul e1 nulend', r'''
+%%
+a\0
+a\0bc
+.|\n
+''')
+
+E('nul_end2', 'nul e1 nulend', r'''
+%%
+x[^y]
+x\0\0z
+\0+q
+.|\n
+''')
